@@ -214,8 +214,14 @@ func c11prop(r *simkit.Run) {
 		UpsertServer(u *url.URL, options ...roundrobin.ServerOption) error
 		RemoveServer(u *url.URL) error
 	}
+	// direct: with a rebalancer in front, some servers are administered on the balancer it wraps (a pool that
+	// was populated before it was wrapped, or is looked after by somebody holding the inner balancer): they are
+	// members of the pool all the same. One server is administered through one handle for the whole run.
+	var inner *roundrobin.RoundRobin
+	direct := map[string]bool{}
 	if viaRB {
 		rr, _ := roundrobin.New(next)
+		inner = rr
 		rb, err := roundrobin.NewRebalancer(rr, roundrobin.RebalancerStickySession(sticky),
 			roundrobin.RebalancerMeter(func() (roundrobin.Meter, error) {
 				if failMeter {
@@ -261,13 +267,24 @@ func c11prop(r *simkit.Run) {
 		r.Tracef("history: %v", trace)
 		r.Fail(kind, format+fmt.Sprintf(" [codec %v, pool %s]", spec, model.encode()), args...)
 	}
+	directAdds := 0
 	add := func(k string, w int) {
 		u := mustURL(universe[k])
-		if err := admin.UpsertServer(u, roundrobin.Weight(w)); err != nil {
+		if _, known := direct[k]; !known {
+			direct[k] = inner != nil && rapid.IntRange(0, 3).Draw(rt, "administered-on-the-inner-balancer") == 0
+		}
+		var err error
+		if direct[k] {
+			err = inner.UpsertServer(u, roundrobin.Weight(w))
+			directAdds++
+		} else {
+			err = admin.UpsertServer(u, roundrobin.Weight(w))
+		}
+		if err != nil {
 			fail("upsert-failed", "UpsertServer(%s): %v", universe[k], err)
 		}
 		model.upsert(u, true, w)
-		note("upsert %s w=%d", universe[k], w)
+		note("upsert %s w=%d direct=%v", universe[k], w, direct[k])
 	}
 	add(keys[0], 1)
 	for _, k := range keys[1:] {
@@ -412,9 +429,16 @@ func c11prop(r *simkit.Run) {
 				switch rapid.IntRange(0, 2).Draw(rt, "change") {
 				case 0:
 					if len(model.positive()) > 1 || model.m[i].weight == 0 {
-						if err := admin.RemoveServer(mustURL(model.m[i].str)); err != nil {
+						var err error
+						if direct[k] {
+							err = inner.RemoveServer(mustURL(model.m[i].str))
+						} else {
+							err = admin.RemoveServer(mustURL(model.m[i].str))
+						}
+						if err != nil {
 							fail("remove-failed", "RemoveServer: %v", err)
 						}
+						delete(direct, k) // a later re-add may go either way
 						note("remove %s", model.m[i].str)
 						model.remove(mustURL(universe[k]))
 						removedSrv++
@@ -464,6 +488,7 @@ func c11prop(r *simkit.Run) {
 	r.ProbeN("cookie-corruptions", corrupted)
 	r.ProbeN("expired-cookie-presented", expiredSeen)
 	r.ProbeN("server-removed", removedSrv)
+	r.ProbeN("server-administered-on-the-inner-balancer", directAdds)
 	r.Probe("codec-" + spec.kind)
 	r.Probe("url-class-" + class)
 	r.Sample(func() any {
